@@ -129,6 +129,7 @@ fn below(n: int) -> int { let k = 0; for i in RG { if i >= n { return k; } k += 
 fn fresh(k: str, n: int) -> int { let l: [int] = []; l.push(n); let o = new { ? }; o.set(k, n); let ob = new { a: 0, l: [1] }; ob.a += n; ob.l.push(n); l.len() * 1000 + o.keys().len() * 100 + ob.l.len() * 10 + ob.a }
 fn lam_try(x: int) -> int { try { let f = fn() -> int { 1 }; for i in 0..3 { if i + x > 1 { return x + f(); } } throw("neg"); } catch e { return 0 - 1; } }
 fn after_lam_try(x: int) -> int { let r = lam_try(x); try { checked(x * 20); r += 1000; } catch e { r += 100; } r }
+fn describe(s: str, limit: int) -> str { "total: " + try { let sum = 100 + try { s.parse_int() } catch e { 0 }; if sum > limit { throw("over limit"); } sum.to_string() } catch e { "n/a" } }
 fn early(x: int) -> int { let y = 100 + if x > 0 { return x; } else { 1 }; y }
 fn nested_call(a: int, b: int) -> int { sub(b, a) * 2 + enc3(a, b, 0) }
 fn fact(n: int) -> int { if n <= 1 { 1 } else { n * fact(n - 1) } }
@@ -140,6 +141,7 @@ fn unwrap_opt(o: ?int) -> int { o.unwrap() }
 fn opt_or(o: ?int, d: int) -> int { o.unwrap_or(d) + 1 }
 fn opt_list(o: ?[int]) -> int { if o.is_some() { o.unwrap().len() } else { 0 - 1 } }
 fn deep(n: int) -> int { deep(n + 1) + 1 }
+fn spawn_deep(n: int) -> int { spawn deep(n); time.sleep(0.05); n }
 fn partial(n: int) -> int { counter = counter + n; throw("after"); 0 }
 fn main() {}
 '''
@@ -303,6 +305,9 @@ FUNCS = {
     "below": (["dig"], "int", lambda a, g: ok(I(min(a[0][1], 6))), ()),
     # a function literal inside a try block, followed by a `return` out of that block: the handler is uninstalled on the
     # way out, so a later throw of the CALLER is caught by the caller's own handler
+    # an inner try (entered under a pending operand) has ended when the outer handler fires: the state restored is the
+    # outer one's (handler labels and their recorded states are popped together)
+    "describe": (["str", "int"], "str", lambda a, g: ok(S("total: n/a")) if 100 > a[1][1] else ok(S("total: 100")), ()),
     "lam_try": (["dig"], "int", lambda a, g: ok(I(a[0][1] + 1)) if a[0][1] >= 0 else ok(I(-1)), ()),
     "after_lam_try": (["dig"], "int", lambda a, g: ok(I(a[0][1] + 1 + (100 if a[0][1] >= 1 else 1000))), ()),
     "fresh": (["str", "dig"], "int", lambda a, g: ok(I(1000 + 100 + 20 + a[1][1])), ()),
@@ -323,6 +328,8 @@ FUNCS = {
     "opt_or": (["raw?int", "dig"], "int", lambda a, g: ok(I((a[0][1] if a[0][0] == "int" else (a[0][1][1] if a[0][0] == "some" else a[1][1])) + 1)), ()),
     "opt_list": (["raw?ilist"], "int", lambda a, g: ok(I(len(a[0][1]) if a[0][0] == "list" else (len(a[0][1][1]) if a[0][0] == "some" else -1))), ()),
     "deep": (["dig"], "int", lambda a, g: fail("StackOverFlow"), ("fails",)),
+    # the limit is exceeded in a core the invoked function SPAWNED: the host call is answered with that failure
+    "spawn_deep": (["dig"], "int", lambda a, g: fail("StackOverFlow"), ("fails",)),
     "partial": (["dig"], "int", _partial, ("fails",)),
 }
 
